@@ -67,7 +67,10 @@ Definition eff_budget (r : run) : nat :=
    object; each entry is the tree as dumped immediately before the render, and what the render returned.  (A
    render must depend on nothing but the tree as it is at that moment and the budget: state carried on the tree
    object between calls, e.g. a remembered threshold, shows up here and only here.) *)
-Record case := { c_tree : tnode; c_runs : list run; c_seq : list (tnode * run) }.
+Record case := { c_tree : tnode; c_runs : list run; c_seq : list (tnode * run);
+                 (* renders of ONE tree object taken while another goroutine keeps inserting into it: the tree a render saw
+                    is not known, so each result is checked on its own (self-consistency) *)
+                 c_conc : list run }.
 
 (* ---------------- specification side (independent of the model) ---------------- *)
 
@@ -196,5 +199,17 @@ Definition check_run (t : tnode) (r : run) : list verdict :=
             "flamebearer model differs from FlamebearerStruct") ]
   end.
 
+(* what every single result must satisfy whatever state of a consistent (Insert-built) tree it was taken from *)
+Definition check_conc (r : run) : list verdict :=
+  match decode_levels (r_levels r) with
+  | None => [SpecFails "concurrent render: a level is not a sequence of 4-number bars"]
+  | Some lv =>
+      [ spec (root_ok (r_numticks r) lv) "concurrent render: level 0 is not a single bar [0,numTicks)";
+        spec (Z.eqb (sum_self lv) (r_numticks r)) "concurrent render: self values of all bars do not add up to numTicks";
+        spec (names_ok (r_names r) lv) "concurrent render: a name index is out of range or names[0] is not 'total'";
+        spec (nonneg lv && nesting_ok lv && disjoint_ok lv) "concurrent render: bars not nested / not disjoint" ]
+  end.
+
 Definition check_case (c : case) : verdict :=
-  combine_verdicts (flat_map (check_run (c_tree c)) (c_runs c) ++ flat_map (fun tr => check_run (fst tr) (snd tr)) (c_seq c)).
+  combine_verdicts (flat_map (check_run (c_tree c)) (c_runs c) ++ flat_map (fun tr => check_run (fst tr) (snd tr)) (c_seq c)
+                    ++ flat_map check_conc (c_conc c)).
